@@ -41,7 +41,10 @@ def body_of(i, j):
 
 def app_script(rng, i, j):
     body = body_of(i, j)
-    style = rng.randrange(6)
+    style = rng.randrange(8)
+    # responses that have no body by their status (and carry no Content-Length): "close when told to" applies to them as well
+    if style in (6, 7):
+        return {"acts": [("start", 204 if style == 6 else 304, None), ("return",)], "file": None}, b""
     # a request that FAILS is a request the worker has handled all the same: it counts towards max_requests
     if style == 4:
         return {"acts": [("raise", ("Exception", "the application failed", False, False))], "file": None}, None
@@ -308,7 +311,9 @@ def judge(R):
         # answered in full: the new bytes on this connection are exactly one complete response with the expected body
         if s["n_app"] and s["body"] is not None:          # (body None: the application was scripted to fail)
             resps, leftover, bad = L.split_wire(s["wire"], [False])
-            if not (len(resps) == 1 and not leftover and resps[0]["complete"] and resps[0]["status"] == 200 and resps[0]["body"] == s["body"]):
+            # (the scripts answer 200 with a body, or 204 / 304 without one)
+            if not (len(resps) == 1 and not leftover and resps[0]["complete"] and resps[0]["body"] == s["body"]
+                    and (resps[0]["status"] == 200 if s["body"] else resps[0]["status"] in (200, 204, 304))):
                 fails.append(("not-answered-in-full", "step %d (nr=%d, limit=%d): response %r" % (k, nr, limit, s["wire"][:160])))
             elif not s["alive_after"] and not (L.says_close(resps[0]) and s["ended"]):
                 fails.append(("served-without-close", "step %d: a request handled at/after the limit did not close its connection" % k))
